@@ -355,7 +355,30 @@ func (st *State) BitsOf(v *IntV) []Bit {
 	// derived symbol for the term
 	d := st.ex.syms.Get("("+t.String()+")", v.W, v.Signed)
 	d.DefTerm = t
-	return st.symBits(d, v.W)
+	bs := st.symBits(d, v.W)
+	// congruence: if every symbol's coefficient is a multiple of 2^k, the low k bits are those of the constant part
+	if te := expandTerm(t); len(te.Syms) > 0 {
+		k := 63
+		for _, c := range te.Coefs {
+			if c == 0 {
+				continue
+			}
+			tz := 0
+			for uc := uint64(c); uc&1 == 0 && tz < 63; uc >>= 1 {
+				tz++
+			}
+			if tz < k {
+				k = tz
+			}
+		}
+		if k > 0 && k < 63 {
+			cb := constBits(te.C, v.W)
+			for i := 0; i < k && i < v.W; i++ {
+				bs[i] = cb[i]
+			}
+		}
+	}
+	return bs
 }
 
 func (st *State) symBits(s *Sym, w int) []Bit {
